@@ -1,5 +1,5 @@
 (* C04  Reverse substring search returns exactly the rightmost occurrence. *)
-From Memchr Require Import Spec SpecProofs Params Sub.TwoWay Sub.TwoWayCert Sub.Searcher Sub.SearcherProofs Sub.RabinKarp.
+From Memchr Require Import Spec SpecProofs Params Sub.TwoWay Sub.TwoWayCert Sub.Searcher Sub.SearcherProofs Sub.RabinKarp Sub.TwoWayTier2 Sub.TwoWayTier2Rev.
 
 Theorem C04_spec_some : forall x h i,
   rfind_spec x h = Some i <-> occurs_at x h i = true /\ forall j, i < j -> occurs_at x h j = false.
@@ -21,8 +21,6 @@ Proof.
   destruct (satq_fst _ _ _ (memmem_rfind_correct ar x h a an Hx Hh Hc)) as (v & Hv & -> & Ht). split; assumption.
 Qed.
 
-Definition C04_memmem_rfind_full : Prop := forall ar a h x,
-  bytes_ok x -> bytes_ok h -> fst (memmem_rfind ar a h x) = Ok (rfind_spec x h).
 
 Theorem C04_finder_rev_partial : forall ar a h x,
   bytes_ok x -> bytes_ok h ->
@@ -46,6 +44,25 @@ Example C04_example :
   fst (memmem_rfind (AX86 HasAvx2) 3 ([1;2;1;2]%N ++ repeat 9%N 70 ++ [1;2;1;2;1]%N) [1;2;1;2]%N) = Ok (Some 74).
 Proof. vm_compute. reflexivity. Qed.
 
+(* Tier 2: the reverse preprocessing is the mirror image of the forward preprocessing of the reversed
+   needle (Sub/TwoWayTier2Rev.v), so the reverse certificate holds for every non-empty needle *)
+Lemma rev_cert_always : forall x, tw_reach_rev x = true -> tw_cert_rev_of x = true.
+Proof. intros x H. apply tw_cert_rev_all. unfold tw_reach_rev in H. apply Nat.leb_le in H. lia. Qed.
+
+(* memmem::rfind and FinderRev::rfind: EVERY needle, haystack, architecture, start address *)
+Theorem C04_memmem_rfind : forall ar a an h x,
+  bytes_ok x -> bytes_ok h ->
+  fst (memmem_rfind ar a h x) = Ok (rfind_spec x h) /\
+  loads_ok a (length h) an (length x) (snd (memmem_rfind ar a h x)).
+Proof. intros ar a an h x Hx Hh. apply C04_memmem_rfind_partial; [exact Hx|exact Hh|apply rev_cert_always]. Qed.
+
+Theorem C04_finder_rev : forall ar a h x,
+  bytes_ok x -> bytes_ok h ->
+  fst (f <- rfinder_new x;; rfinder_rfind ar f a h) = Ok (rfind_spec x h).
+Proof. intros ar a h x Hx Hh. apply C04_finder_rev_partial; [exact Hx|exact Hh|apply rev_cert_always]. Qed.
+
+Print Assumptions C04_memmem_rfind.
+Print Assumptions C04_finder_rev.
 Print Assumptions C04_memmem_rfind_partial.
 Print Assumptions C04_finder_rev_partial.
 Print Assumptions C04_spec_some.
